@@ -365,8 +365,11 @@ Definition connect_interface (fl : flags) (sub : bool) (s : str) (i : str) : M u
        else ret tt) ;;;
       pid <- new_interface sub pname None s sServicePort false ;;
       shared <- type_is i sSharedPort ;;
-      new_link sub (pname ++ S "-link") None (if shared then sL2Path else sPatch) [i; pid] ;;;
-      ret tt
+      (* port and link are made as a unit (fix 7b7379b): any failure of the Link construction takes the port away *)
+      (if fl_connect_undo fl then
+         try_any (new_link sub (pname ++ S "-link") None (if shared then sL2Path else sPatch) [i; pid] ;;; ret tt)
+                 (fun e => remove_cp_and_links pid true ;;; raise e)
+       else new_link sub (pname ++ S "-link") None (if shared then sL2Path else sPatch) [i; pid] ;;; ret tt)
   end.
 
 (* NetworkService(NEW) with interfaces: guardrails, connect, rollback on any exception (:100-119, fix 16ce105) *)
@@ -402,8 +405,19 @@ Fixpoint zip_ids (ports : list str) (ids : list str) : list (str * option str) :
   | [], _ => []
   end.
 
+(* add_component_sliver (fix 94aa751): the ids the call is going to add -- component, its service, the interfaces --
+   must be pairwise distinct and none of them may be the id of a node of the graph (get_node_properties succeeds) *)
+Fixpoint distinct_b (l : list str) : bool :=
+  match l with [] => true | x :: r => negb (mem_str x r) && distinct_b r end.
+Definition comp_precheck (fl : flags) (id : str) (gen : option (node * list node)) : M unit :=
+  if fl_comp_precheck fl then
+    let ids := id :: match gen with Some (ns, ifs) => nid ns :: map nid ifs | None => [] end in
+    guard (distinct_b ids) EQuery ;;;
+    for_each ids (fun x => g <- getg ;; guard (negb (len_is (find_nodes g x) 1)) EQuery)
+  else ret tt.
+
 (* Component(NEW) (component.py:78-113) + ComponentCatalog.generate_component + add_component_sliver *)
-Definition new_component (sub : bool) (parent : str) (name : str) (cid : option str) (ctype model : str)
+Definition new_component (fl : flags) (sub : bool) (parent : str) (name : str) (cid : option str) (ctype model : str)
            (nsid : option str) (ifids : option (list str)) (lab : bool) : M unit :=
   guard (negb (sub && match cid with None => true | _ => false end)) ETopology ;;;
   id <- id_or_draw cid ;;
@@ -433,6 +447,7 @@ Definition new_component (sub : bool) (parent : str) (name : str) (cid : option 
                   check_name KNS sname ;;;
                   ret (Some (mkNode sid KNS (Some (if fpga then sP4 else sOVS)) (Some sname) false, ifs))
               end) ;;
+      comp_precheck fl id gen ;;;
       add_node (mk id KComp (Some ctype') name lab) ;;;
       add_link parent Has id ;;;
       match gen with
@@ -445,20 +460,20 @@ Definition new_component (sub : bool) (parent : str) (name : str) (cid : option 
   end.
 
 (* Node.add_component (node.py:272) *)
-Definition node_add_component (sub : bool) (n : str) (name : str) (cid : option str) (ctype model : str)
+Definition node_add_component (fl : flags) (sub : bool) (n : str) (name : str) (cid : option str) (ctype model : str)
            (nsid : option str) (ifids : option (list str)) : M unit :=
   cs <- components_of n ;;
   g <- getg ;;
   guard (negb (name_in g name cs)) ETopology ;;;
-  new_component sub n name cid ctype model nsid ifids false.
+  new_component fl sub n name cid ctype model nsid ifids false.
 
 (* Node.add_storage (node.py:303) *)
-Definition node_add_storage (sub : bool) (n : str) (name : str) (cid : option str) : M unit :=
+Definition node_add_storage (fl : flags) (sub : bool) (n : str) (name : str) (cid : option str) : M unit :=
   guard (negb sub) ETopology ;;;
   cs <- components_of n ;;
   g <- getg ;;
   guard (negb (name_in g name cs)) ETopology ;;;
-  new_component sub n name cid sStorage sNAS None None true.
+  new_component fl sub n name cid sStorage sNAS None None true.
 
 (* find_component_by_name / find_ns_by_name / find_child_connection_point_by_name (abc_asm.py:152-200) *)
 Definition find_by_name (l : list str) (name : str) : M str :=
@@ -621,29 +636,26 @@ Definition dist (g : graph) (a x : str) : option nat :=
 Definition dist_is (g : graph) (a x : str) (d : nat) : bool :=
   match dist g a x with Some k => Nat.eqb k d | None => false end.
 
-(* NetworkService.unpeer (network_service.py:425, fix 13b815d): the shortest path over `connects` edges must be
-   service - port - link - port - service; sp[1] and sp[-2] are removed; when several such paths give different
-   choices the model says EAmbiguous *)
-Definition connects_only (g : graph) : graph :=
-  mkG (gnodes g) (filter (fun e => rel_eqb (erel e) Connects) (gedges g)).
+(* NetworkService.unpeer (network_service.py, fix 24d5e04): the peerings are found from this service's own service
+   ports -- such a port, its link, and at the other end a service port owned by the other service; every peering
+   between the two services is removed (both ports, hence the link); no peering: TopologyException *)
+Definition peerings (a b : str) : M (list (str * str)) :=
+  cps <- cps_of_ns_or_link a ;;
+  concatM (fun cp =>
+    t <- type_is cp sServicePort ;;
+    if negb t then ret [] else
+    ps <- find_peers cp ;;
+    concatM (fun p =>
+      tp <- type_is p sServicePort ;;
+      if negb tp then ret [] else
+      o <- get_parent p Connects KNS ;;
+      ret (match o with Some (_, id) => if str_eqb id b then [(cp, p)] else [] | None => [] end))
+      (match ps with Some l => l | None => [] end)) cps.
 Definition ns_unpeer (a b : str) : M unit :=
-  find1 a ;;; find1 b ;;;
-  g <- getg ;;
-  let gc := connects_only g in
-  match dist gc a b with
-  | Some 4 =>
-      let firsts := filter (fun x => dist_is gc b x 3) (dedup (all_nbrs gc a)) in
-      let lasts := filter (fun y => dist_is gc a y 3) (dedup (all_nbrs gc b)) in
-      match firsts, lasts with
-      | [x], [y] =>
-          (* both ends of a peering link are service ports (fix 0d94156) *)
-          tx <- type_is x sServicePort ;; guard tx ETopology ;;;
-          ty <- type_is y sServicePort ;; guard ty ETopology ;;;
-          remove_cp_and_links x true ;;; remove_cp_and_links y true
-      | _, _ => raise EAmbiguous
-      end
-  | _ => raise ETopology
-  end.
+  pairs <- peerings a b ;;
+  guard (negb (len_is pairs 0)) ETopology ;;;
+  for_each (dedup (map fst pairs ++ map snd pairs)) (fun cp =>
+    ex <- cp_exists cp ;; if ex then remove_cp_and_links cp true else ret tt).
 
 (* Interface.add_child_interface (interface.py:103); fresh handle: cache = names of the children *)
 Definition iface_add_child (sub : bool) (i : str) (name : str) (cid : option str) (has_vlan : bool) : M unit :=
@@ -760,8 +772,8 @@ Definition run_op (sub : bool) (fl : flags) (hint : list str) (o : op) : M unit 
   | OAddNode name nid ntype => t_add_node sub name nid ntype ;;; ret tt
   | ORemoveNode name => t_remove_node fl hint name
   | OAddComponent n name cid ctype model nsid ifids =>
-      need KNode n ;;; node_add_component sub n name cid ctype model nsid ifids
-  | OAddStorage n name cid => need KNode n ;;; node_add_storage sub n name cid
+      need KNode n ;;; node_add_component fl sub n name cid ctype model nsid ifids
+  | OAddStorage n name cid => need KNode n ;;; node_add_storage fl sub n name cid
   | ORemoveComponent n name => need KNode n ;;; node_remove_component fl hint n name
   | OAddFacility name nid ifnames => t_add_facility sub name nid ifnames
   | ORemoveFacility name => t_remove_facility fl hint name
